@@ -207,6 +207,33 @@ func runC06(r *Run) {
 		firstReuse["windows_reused"] = reuse
 		r.Violate("[C06] identifiers issued by the running service share 12-character windows: entropy is reused, so session ids are computable from public values or other sessions' identifiers", firstReuse)
 	}
+	// (a2) the same for ONE generator instance asked many times (a handler that lives longer than a request, a generator
+	// shared by a filter's handlers): identifiers drawn later must not repeat entropy drawn earlier
+	{
+		g := oidc.NewRandomGenerator()
+		draws := scale(r, 400, 4000)
+		seenG := map[string]int{}
+		var first map[string]any
+		reused := 0
+		for i := 0; i < draws; i++ {
+			for kind, v := range map[string]string{"sid": g.GenerateSessionID(), "nonce": g.GenerateNonce(), "state": g.GenerateState(), "verifier": g.GenerateCodeVerifier()} {
+				for k := 0; k+win <= len(v); k++ {
+					if prev, ok := seenG[v[k:k+win]]; ok && prev != i {
+						reused++
+						if first == nil {
+							first = map[string]any{"window": v[k : k+win], "first_drawn_at": prev, "again_at": i, "kind": kind, "draws": draws}
+						}
+					}
+					seenG[v[k:k+win]] = i
+				}
+			}
+		}
+		if reused > 0 {
+			first["windows_reused"] = reused
+			r.Violate("[C06] one generator instance repeats 12-character windows of identifiers it issued earlier: after some draws its output is a replay, so later session ids are computable from earlier public values", first)
+		}
+		r.Dist["single-generator-draws"] = draws
+	}
 	// (b) length and alphabet
 	for _, l := range logins[:minInt(50, len(logins))] {
 		if len(l.Sid) != 64 || len(l.Nonce) != 32 || len(l.State) != 32 || strings.Trim(l.Sid+l.Nonce+l.State, c06Charset) != "" {
@@ -246,7 +273,7 @@ func runC06(r *Run) {
 		r.Violate("[C06] grossly non-uniform character distribution in session ids", map[string]any{"min": fs[0], "max": fs[len(fs)-1], "total": total})
 	}
 	r.Dist["real-logins"] = len(logins)
-	r.Finish("(1) the real NewRandomGenerator with crypto/rand.Reader replaced by a scripted byte stream (random, rejection-heavy and boundary-valued streams) compared with the Lean Gen model on the same bytes, incl. how many bytes are consumed; (2) search on the real wiring: logins through ExtAuthZFilter.Check from 8 goroutines with the real entropy source - no 12-character window shared between any two identifiers, lengths/alphabet, seed-search attack (math/rand seeded around the request time), gross frequency test; non-trivial = every scripted stream, distinct by stream")
+	r.Finish("(1) the real NewRandomGenerator with crypto/rand.Reader replaced by a scripted byte stream (random, rejection-heavy and boundary-valued streams) compared with the Lean Gen model on the same bytes, incl. how many bytes are consumed; (2) search on the real wiring: logins through ExtAuthZFilter.Check from 8 goroutines with the real entropy source - no 12-character window shared between any two identifiers (also among thousands of identifiers drawn from ONE generator instance), lengths/alphabet, seed-search attack (math/rand seeded around the request time), gross frequency test; non-trivial = every scripted stream, distinct by stream")
 }
 
 func minInt(a, b int) int {
